@@ -142,6 +142,7 @@ func init() {
 		wireOneByteEndian(w, wc, r, "C07")
 		wireEmitOnceKeys(w, wc, r, "C07")
 		goImportsUsed(w, wc, r, "C07")
+		computedFieldsSingle(w, r, "C07")
 		c12OptionValidation(w, r, "C07") // a value outside the documented list reaches the type tables as a missing row: empty type names in the output
 		wireTemplateTaint(w, wc, r, "C07", []string{"go", "rust", "java", "python", "cpp", "lua"})
 		wireAssumptions(r)
